@@ -18,9 +18,19 @@ Reads
       (cap None), followed by `return Err("provider_error"…)`; run_session / run_openresponses_agent_loop /
       stream_openresponses_request contain no range-index expression (`x[..n]`, `x[a..]`, `x[a..b]`: a byte slice of a
       text panics off a character boundary and a panicking run task never reaches the single exit).
+  crates/ripd/src/session.rs  run_openresponses_agent_loop — the tool budget's accounting: `tool_call_count` is declared
+      once (`let mut tool_call_count: u64 = 0`), tested `>= DEFAULT_MAX_TOOL_CALLS` at the head of the `loop` and at the
+      head of the `for call in tool_calls` body (each returning max_tool_calls_exceeded), and incremented
+        - exactly once, as the statement right after that test, BEFORE the `allows_function` refusal branch
+          (every drained call is paid for, refused or not)                                 -> AcctEveryCall
+        - only inside the dispatching branches of the `if !…allows_function(..) {refuse} else if … else …` chain,
+          not in the refusing one                                                         -> AcctDispatchedOnly
+      anything else (no increment, conditional increment elsewhere, a reset, `-=`) is "not found".  No `continue` in
+      the function (a round that skipped the accounting).  DEFAULT_MAX_TOOL_CALLS from provider_openresponses.rs.
 Emits coq/Gen/RunLifecycleGen.v: gen_guard, gen_exit_order, gen_returns, gen_end_frames, gen_end_frames_skipping,
-gen_http_err_prefix, gen_http_err_sep, gen_http_err_cap, gen_run_path_slices, gen_ok_run_lifecycle and the obligations
-gen_guard_ok / gen_exit_ok / gen_http_err_ok.  A construct that is not found sets gen_ok_run_lifecycle := false (never guess)."""
+gen_http_err_prefix, gen_http_err_sep, gen_http_err_cap, gen_run_path_slices, gen_acct, gen_max_tool_calls,
+gen_loop_continues, gen_ok_run_lifecycle and the obligations gen_guard_ok / gen_exit_ok / gen_http_err_ok / gen_budget_ok /
+gen_acct_all.  A construct that is not found sets gen_ok_run_lifecycle := false (never guess)."""
 import argparse, os, re, sys
 
 
@@ -207,6 +217,64 @@ def main():
         rng = r"\[[^\[\]]*\.\.[^\[\]]*\]"
         n_slices = sum(len(re.findall(r"[\w)\]]\s*" + rng, f)) for f in (rs, al, sr))
 
+    # ---------------------------------------------------------------- the tool budget's accounting
+    acct, max_calls, n_cont = None, None, None
+    po = rd("crates/ripd/src/provider_openresponses.rs")
+    mm = re.search(r"pub\s+const\s+DEFAULT_MAX_TOOL_CALLS\s*:\s*u64\s*=\s*([0-9_]+)\s*;", po)
+    if need(mm is not None, "provider_openresponses.rs: `pub const DEFAULT_MAX_TOOL_CALLS: u64 = N;` not found"):
+        max_calls = int(mm.group(1).replace("_", ""))
+    if al is not None:
+        hook = r"#\[cfg\(rip_verif\)\]\s*rip_kernel::verif::point\(\s*\"[^\"]*\"\s*\)\s*;"
+        alc = re.sub(hook, "", al)
+        n_cont = len(re.findall(r"\bcontinue\b", alc))
+        bound_test = r"if\s+tool_call_count\s*>=\s*DEFAULT_MAX_TOOL_CALLS\s*\{\s*return\s+OpenResponsesLoopOutcome\s*\{[^{}]*\}\s*;\s*\}"
+        inc = r"tool_call_count\s*\+=\s*1\s*;"
+        mentions = len(re.findall(r"\btool_call_count\b", alc))
+        incs = [x.start() for x in re.finditer(inc, alc)]
+        need(len(re.findall(r"let\s+mut\s+tool_call_count\s*:\s*u64\s*=\s*0\s*;", alc)) == 1, "agent loop: `let mut tool_call_count: u64 = 0;` not found exactly once")
+        need(len(re.findall(bound_test, alc)) == 2, "agent loop: expected the bound test `if tool_call_count >= DEFAULT_MAX_TOOL_CALLS { return … }` twice (loop head, call loop head)")
+        need(mentions == 3 + len(incs), "agent loop: tool_call_count is used other than declaration / 2 bound tests / `+= 1` (%d mentions, %d increments)" % (mentions, len(incs)))
+        need(re.search(r"\bloop\s*\{\s*" + bound_test, alc) is not None, "agent loop: the `loop` does not start with the bound test")
+        # both bound tests return max_tool_calls_exceeded (strings are blanked in `al`: look in the raw text)
+        al_raw = fn_body(se_raw, r"async\s+fn\s+run_openresponses_agent_loop\s*[<(]") or ""
+        need(len(re.findall(r"if\s+tool_call_count\s*>=\s*DEFAULT_MAX_TOOL_CALLS\s*\{\s*return\s+OpenResponsesLoopOutcome\s*\{\s*reason\s*:\s*\"max_tool_calls_exceeded\"", al_raw)) == 2,
+             "agent loop: a bound test does not return reason max_tool_calls_exceeded")
+        mf = re.search(r"for\s+call\s+in\s+tool_calls\s*\{", alc)
+        if need(mf is not None, "agent loop: `for call in tool_calls {` not found"):
+            fb = block_after(alc, mf.start())
+            if need(fb is not None, "agent loop: body of the call loop not found"):
+                m0 = re.match(r"\s*" + bound_test + r"\s*", fb)
+                if need(m0 is not None, "call loop: the body does not start with the bound test"):
+                    rest = fb[m0.end():]
+                    fincs = [x.start() for x in re.finditer(inc, fb)]
+                    mref = re.search(r"if\s+!\s*tool_choice_enforcement\s*\.\s*allows_function\s*\(", fb)
+                    if need(mref is not None and len(re.findall(r"allows_function\s*\(", alc)) == 1, "call loop: the refusal test `if !tool_choice_enforcement.allows_function(` not found exactly once"):
+                        refuse_blk = block_after(fb, mref.start())
+                        r0 = fb.find(refuse_blk, mref.start()) if refuse_blk is not None else -1
+                        if need(refuse_blk is not None and "rejected_tool_invocation_events" in refuse_blk, "call loop: the refusing branch (rejected_tool_invocation_events) not found"):
+                            r1 = r0 + len(refuse_blk)
+                            # the rest of the chain: `else if … { … } else { … }` up to the `;` that closes `let output_value = if …`
+                            chain_end, j, depth = None, r1 + 1, 0
+                            while j < len(fb):
+                                c = fb[j]
+                                if c == "{":
+                                    depth += 1
+                                elif c == "}":
+                                    depth -= 1
+                                elif c == ";" and depth == 0:
+                                    chain_end = j
+                                    break
+                                j += 1
+                            need(chain_end is not None, "call loop: end of the dispatch chain not found")
+                            in_refuse = [i for i in fincs if r0 <= i < r1]
+                            in_chain = [i for i in fincs if chain_end is not None and r1 <= i < chain_end]
+                            if re.match(inc, rest) and len(incs) == 1 and len(fincs) == 1 and fincs[0] < mref.start():
+                                acct = "AcctEveryCall"
+                            elif len(incs) == len(fincs) == len(in_chain) >= 1 and not in_refuse and not re.match(inc, rest):
+                                acct = "AcctDispatchedOnly"
+                            else:
+                                need(False, "call loop: unrecognised placement of `tool_call_count += 1` (%d in the function, %d in the call loop, %d in the refusing branch, %d in the dispatching branches)" % (len(incs), len(fincs), len(in_refuse), len(in_chain)))
+
     os.makedirs(a.out, exist_ok=True)
     with open(os.path.join(a.out, "RunLifecycleGen.v"), "w") as f:
         f.write("(* GENERATED by tools/gen/run_lifecycle.py from crates/ripd/src/{runner,session}.rs — do not edit *)\n")
@@ -228,6 +296,10 @@ def main():
         f.write("Definition gen_http_err_verbatim : bool := %s.\n" % ("true" if cap_ok else "false"))
         f.write("(* range-index expressions in run_session / run_openresponses_agent_loop / stream_openresponses_request *)\n")
         f.write("Definition gen_run_path_slices : N := %d.\n" % (n_slices if n_slices is not None else 999))
+        f.write("(* the tool budget: where `tool_call_count += 1` sits relative to the tool_choice refusal branch, the bound, `continue`s in the loop *)\n")
+        f.write("Definition gen_acct : acct := %s.\n" % (acct or "AcctDispatchedOnly"))
+        f.write("Definition gen_max_tool_calls : N := %d.\n" % (max_calls if max_calls is not None else 0))
+        f.write("Definition gen_loop_continues : N := %d.\n" % (n_cont if n_cont is not None else 999))
         f.write("Lemma gen_guard_ok : gen_ok_run_lifecycle && guard_atomic gen_guard && guard_kind_eqb gen_guard GUARD_KIND = true.\n")
         f.write("Proof. vm_compute. reflexivity. Qed.\n")
         f.write("Lemma gen_guard_atomic : guard_atomic gen_guard = true.\n")
@@ -235,6 +307,10 @@ def main():
         f.write("Lemma gen_exit_ok : gen_ok_run_lifecycle && lN_eqb gen_exit_order EXIT_ORDER && (gen_returns =? 0) && (gen_end_frames =? gen_end_frames_skipping) = true.\n")
         f.write("Proof. vm_compute. reflexivity. Qed.\n")
         f.write("Lemma gen_http_err_ok : gen_ok_run_lifecycle && gen_http_err_verbatim && lN_eqb gen_http_err_prefix HTTP_ERR_PREFIX && lN_eqb gen_http_err_sep HTTP_ERR_SEP && cap_eqb gen_http_err_cap HTTP_ERR_CAP && (gen_run_path_slices =? 0) = true.\n")
+        f.write("Proof. vm_compute. reflexivity. Qed.\n")
+        f.write("Lemma gen_budget_ok : gen_ok_run_lifecycle && acct_eqb gen_acct ACCT && (gen_max_tool_calls =? MAX_TOOL_CALLS) && (gen_loop_continues =? 0) = true.\n")
+        f.write("Proof. vm_compute. reflexivity. Qed.\n")
+        f.write("Lemma gen_acct_all : acct_all gen_acct = true.\n")
         f.write("Proof. vm_compute. reflexivity. Qed.\n")
     for n in notes:
         print("run_lifecycle.py: " + n, file=sys.stderr)
